@@ -99,9 +99,39 @@ def trans(dim=3, lo_exp=-6, hi_exp=6, zero=True, tiny=False):
     return st.tuples(d, st.one_of(*mags)).map(lambda t: [x * t[1] for x in t[0]])
 
 
+def _cube_rotations():
+    """the 24 proper rotations with entries in {0, 1, -1} (axis relabellings): exact quarter / half / third turns whose matrices
+    have exactly tied or exactly zero entries -- [axis, angle] such that rounding Rodrigues' formula recovers the integer matrix"""
+    import itertools
+    import numpy as np
+    from . import refs
+    out = []
+    for perm in itertools.permutations(range(3)):
+        for signs in itertools.product([1.0, -1.0], repeat=3):
+            R = np.zeros((3, 3))
+            for i in range(3):
+                R[i, perm[i]] = signs[i]
+            if abs(np.linalg.det(R) - 1.0) > 1e-9:
+                continue
+            ax, th = refs.axis_angle(R)
+            out.append({"axis": [1.0, 0.0, 0.0] if ax is None else [float(x) for x in ax], "angle": float(th), "via": "cube"})
+    return out
+
+
+CUBE = None
+
+
+def cube_rot():
+    global CUBE
+    if CUBE is None:
+        CUBE = _cube_rotations()
+    return st.sampled_from(CUBE)
+
+
 def rot3(lo_exp=-15, via=True):
     vias = st.sampled_from(["rod", "rod", "quat"]) if via else st.just("rod")
-    return st.fixed_dictionaries({"axis": direction3(), "angle": rot_angles(lo_exp), "via": vias})
+    generic = st.fixed_dictionaries({"axis": direction3(), "angle": rot_angles(lo_exp), "via": vias})
+    return st.one_of(generic, generic, generic, generic, generic, generic, generic, cube_rot()) if via else generic
 
 
 def pose3(t_hi=6, lo_exp=-15, tiny=False):
